@@ -14,6 +14,7 @@ R_Create(reg, id, lang)  == PutId(reg, id, [lang |-> lang, s |-> NewStore, buf |
 R_Destroy(reg, id)       == [x \in DOMAIN reg \ {id} |-> reg[x]]
 R_Add(reg, id, rid, title, rating, tok) == PutId(reg, id, [reg[id] EXCEPT !.s = S_Add(@, rid, title, rating, tok)])
 R_SetLimit(reg, id, n)   == PutId(reg, id, [reg[id] EXCEPT !.s = S_SetLimit(@, n)])     \* also reserves buffer capacity: not observable
+R_Clear(reg, id)         == PutId(reg, id, [reg[id] EXCEPT !.s = S_Clear(@)])          \* using_store(id, |s| s.clear())
 R_Markers(reg, id, l, r) == PutId(reg, id, [reg[id] EXCEPT !.s = S_SetMarkers(@, l, r)])
 \* run_search: the buffer of this id is cleared and refilled with the outcome `res` of Store::search
 R_RunSearch(reg, id, res) == PutId(reg, id, [reg[id] EXCEPT !.s = S_AfterSearch(@, res), !.buf = res.out.hits])
